@@ -89,13 +89,18 @@ impl OverlayFS {
 impl FileSystem for OverlayFS {
     fn read_dir(&self, path: &str) -> VfsResult<Box<dyn Iterator<Item = String> + Send>> {
         let actual_path = if !path.is_empty() { &path[1..] } else { path };
-        if !self.read_path(path)?.exists()? {
+        let read_path = self.read_path(path)?;
+        if !read_path.exists()? {
             return Err(VfsErrorKind::FileNotFound.into());
+        }
+        if read_path.metadata()?.file_type != VfsFileType::Directory {
+            return Err(VfsErrorKind::Other("Not a directory".into()).into());
         }
         let mut entries = HashSet::<String>::new();
         for layer in &self.layers {
             let layer_path = layer.join(actual_path)?;
-            if layer_path.exists()? {
+            // a layer only contributes children where it has a directory at this path
+            if layer_path.exists()? && layer_path.metadata()?.file_type == VfsFileType::Directory {
                 for path in layer_path.read_dir()? {
                     entries.insert(path.filename());
                 }
